@@ -561,6 +561,11 @@ func e2eScripts() [][]e2eStep {
 // connection dropped after the request was read on a REUSED connection (a replay below the retry loop would be counted).
 func retryEndToEnd(c *hk.Ctx) {
 	for _, kind := range []string{"streamable", "sse"} {
+		for _, how := range []string{"deadline", "cancel"} {
+			runE2ECancel(c, kind, how)
+		}
+	}
+	for _, kind := range []string{"streamable", "sse"} {
 		for _, mr := range []int{0, 1, 3} {
 			for _, sc := range e2eScripts() {
 				runE2E(c, kind, mr, sc)
@@ -759,4 +764,98 @@ func runE2E(c *hk.Ctx, kind string, mr int, sc []e2eStep) {
 func jsonID(v any) string {
 	b, _ := json.Marshal(v)
 	return string(b)
+}
+
+// runE2ECancel: the real client is backing off after a transient failure when the caller's context ends (by deadline or
+// by cancel): the call ends at once with the context's error.
+func runE2ECancel(c *hk.Ctx, kind, how string) {
+	push := make(chan string, 4)
+	mux := http.NewServeMux()
+	post := func(w http.ResponseWriter, r *http.Request) {
+		body, _ := io.ReadAll(r.Body)
+		var m map[string]any
+		json.Unmarshal(body, &m)
+		switch m["method"] {
+		case "initialize":
+			msg := fmt.Sprintf(`{"jsonrpc":"2.0","id":%v,"result":{"protocolVersion":"2025-03-26","capabilities":{"tools":{}},"serverInfo":{"name":"s","version":"1"}}}`, jsonID(m["id"]))
+			if kind == "sse" {
+				w.WriteHeader(202)
+				push <- msg
+				return
+			}
+			w.Header().Set("Content-Type", "application/json")
+			fmt.Fprint(w, msg)
+		case "tools/list":
+			http.Error(w, "scripted", 503)
+		default:
+			w.WriteHeader(202)
+		}
+	}
+	mux.HandleFunc("/", func(w http.ResponseWriter, r *http.Request) {
+		if r.Method == http.MethodPost {
+			post(w, r)
+			return
+		}
+		w.Header().Set("Content-Type", "text/event-stream")
+		w.WriteHeader(200)
+		fl, _ := w.(http.Flusher)
+		fmt.Fprint(w, "event: endpoint\ndata: /message?sessionId=s1\n\n")
+		fl.Flush()
+		for {
+			select {
+			case msg := <-push:
+				fmt.Fprintf(w, "event: message\ndata: %s\n\n", msg)
+				fl.Flush()
+			case <-r.Context().Done():
+				return
+			}
+		}
+	})
+	srv := httptest.NewServer(mux)
+	defer srv.Close()
+	opts := []mcp.ClientOption{mcp.WithClientLogger(hk.QuietLogger{}), mcp.WithClientGetSSEEnabled(false),
+		mcp.WithRetry(mcp.RetryConfig{MaxRetries: 3, InitialBackoff: 600 * time.Millisecond, BackoffFactor: 1, MaxBackoff: 600 * time.Millisecond})}
+	var cl *mcp.Client
+	var err error
+	if kind == "sse" {
+		cl, err = mcp.NewSSEClient(srv.URL+"/sse", mcp.Implementation{Name: "v", Version: "1"}, opts...)
+	} else {
+		cl, err = mcp.NewClient(srv.URL+"/mcp", mcp.Implementation{Name: "v", Version: "1"}, opts...)
+	}
+	if err != nil {
+		return
+	}
+	defer srv.CloseClientConnections()
+	defer cl.Close()
+	ictx, icancel := context.WithTimeout(context.Background(), 5*time.Second)
+	_, ierr := cl.Initialize(ictx, &mcp.InitializeRequest{})
+	icancel()
+	if ierr != nil {
+		c.Noise()
+		return
+	}
+	var ctx context.Context
+	var cancel context.CancelFunc
+	if how == "deadline" {
+		ctx, cancel = context.WithTimeout(context.Background(), 200*time.Millisecond) // ends inside the first 600 ms back-off
+	} else {
+		ctx, cancel = context.WithCancel(context.Background())
+		time.AfterFunc(200*time.Millisecond, cancel)
+	}
+	defer cancel()
+	t0 := time.Now()
+	_, callErr := cl.ListTools(ctx, &mcp.ListToolsRequest{})
+	el := time.Since(t0)
+	want := ctx.Err()
+	// the clients wrap transport errors as text ("list tools request failed: context deadline exceeded"): the caller sees the
+	// context's error by its text (errors.Is holds at the level of retry.Execute, which the scripted part checks)
+	carries := callErr != nil && want != nil && (errors.Is(callErr, want) || strings.Contains(callErr.Error(), want.Error()))
+	good := carries && el < 200*time.Millisecond+400*time.Millisecond
+	c.Count("retry.e2e-cancel", true, map[string]any{"client": kind, "how": how, "elapsed_ms": el.Milliseconds(), "error": fmt.Sprint(callErr)}, "e2e-cancel-"+kind+"-"+how)
+	if !good {
+		c.Violate(hk.Violation{Fingerprint: "retry.e2e:context-end-during-backoff:" + kind + ":" + how,
+			What:     "the caller's context ended (" + how + ") while the client was backing off after a 503: the call must end at once with the context's error",
+			Input:    map[string]any{"client": kind, "backoff_ms": 600, "context_ends_after_ms": 200, "how": how},
+			Observed: map[string]any{"elapsed_ms": el.Milliseconds(), "error": fmt.Sprint(callErr), "carries_the_contexts_error": carries}, Expected: fmt.Sprint(want)})
+	}
 }
